@@ -438,6 +438,11 @@ class Types:
 
     def _call_type(self, e: ast.Call, f: Func, self_cls, env) -> T:  # noqa: C901
         fn = e.func
+        # re.search / re.match / re.fullmatch (module functions or methods of a compiled pattern) give Optional[Match]
+        if isinstance(fn, ast.Attribute) and fn.attr in ("search", "match", "fullmatch") and isinstance(fn.value, ast.Name) and fn.value.id not in env:
+            r_ = self.prog.resolve_name(f.module, fn.value.id)
+            if isinstance(r_, tuple) and r_[0] == "ext" and r_[1] == "re":
+                return union([("ext", "re.Match"), NONE])
         if isinstance(fn, ast.Name):
             if fn.id not in env:
                 b = {
